@@ -58,8 +58,17 @@ def listRun : St → List Name → List Shown
   | _, [] => []
   | s, t :: rest => (if s.crashed then .crash else listShown s t) :: listRun (listOne s t) rest
 
-/-- `Info._execute`: never consults `ignore:` -/
-def infoShown (s : St) (t : Name) : Shown := ofStatus (s.statusLog t)
+/-- `Info._execute` (tree as repaired): `status_is_ignore` first -- then nothing else is looked at --, else
+    `get_status(task, tasks, get_log=True).status` -/
+def infoShown (s : St) (t : Name) : Shown :=
+  if (s.rcd t).ign then .ignore else ofStatus (s.statusLog t)
+
+/-- the pinned `Info._execute`: never consulted `ignore:` -/
+def infoShownPinned (s : St) (t : Name) : Shown := ofStatus (s.statusLog t)
+
+/-- effect of `info t` (status shown): an ignored task is not looked at, otherwise `get_status(get_log=True)` runs -/
+def infoOne (s : St) (t : Name) : St :=
+  if (s.rcd t).ign then s else step true s (.info t)
 
 /-- does `get_status` call `self.remove(task)` -/
 def removesAt (getLog : Bool) (s : St) (t : Name) : Bool :=
@@ -114,6 +123,10 @@ def Reasons.isEmpty (x : Reasons) : Bool :=
 def infoReasons (s : St) (t : Name) : Reasons :=
   reasonsOf s.checker (s.defs t) (s.rcd t) s.fs s.resOf
 
+/-- what `info t` prints: nothing for an ignored task -/
+def infoPrinted (s : St) (t : Name) : Reasons :=
+  if (s.rcd t).ign then Reasons.none else infoReasons s t
+
 /-! ## the commands -/
 
 inductive Cmd
@@ -136,7 +149,7 @@ def Cmd.readOnly : Cmd → Bool
 def Cmd.exec : Cmd → St → St
   | .list true ts, s => listSt s ts
   | .list false _, s => s
-  | .info t false, s => step true s (.info t)
+  | .info t false, s => infoOne s t
   | .info _ true, s => s
   | .clean dry forget ts, s => if forget && !dry then ts.foldl erase s else s
   | .help, s => s
@@ -147,7 +160,7 @@ def Cmd.exec : Cmd → St → St
 def Cmd.removes : Cmd → St → List Name
   | .list true ts, s => listRemoves s ts
   | .list false _, _ => []
-  | .info t false, s => if !s.crashed && removesAt true s t then [t] else []
+  | .info t false, s => if !s.crashed && !(s.rcd t).ign && removesAt true s t then [t] else []
   | .info _ true, _ => []
   | .clean dry forget ts, _ => if forget && !dry then ts else []
   | .help, _ => []
